@@ -241,6 +241,59 @@ fn wire_amounts(o: &mut Outcome, seed: u64) {
     }
 }
 
+/// The largest refund: a real proof for amount -(2^63-1) on a channel (0, 2^63-1), presented to
+/// the merchant under the wire-only amount i64::MIN (whose magnitude is one more).
+fn wire_extreme(o: &mut Outcome, seed: u64) {
+    let m = merchant(MSPEC);
+    let mut rng = SimRng::new(seed, "c17/extreme");
+    let cid = za::ChannelId::new(za::MerchantRandomness::new(&mut rng), za::CustomerRandomness::new(&mut rng), m.cfg.signing_keypair().public_key(), b"m", b"c");
+    let ctx = za::Context::new(b"c17-extreme-est");
+    let variants: [(u64, u64, i64, Vec<i64>); 2] = [
+        (0, i64::MAX as u64, -i64::MAX, vec![i64::MIN, i64::MIN + 2, i64::MAX]),
+        (i64::MAX as u64, 0, i64::MAX, vec![i64::MIN, i64::MAX - 1, -i64::MAX]),
+    ];
+    let (c0, m0, amount, wrong) = variants[(seed % 2) as usize].clone();
+    let cb = za::CustomerBalance::try_new(c0).unwrap();
+    let mb = za::MerchantBalance::try_new(m0).unwrap();
+    let (req, proof) = za::customer::Requested::new(&mut rng, &m.ccfg, cid, mb, cb, &ctx);
+    let (cs, vbs) = m.cfg.initialize(&mut rng, &cid, cb, mb, proof, &ctx).unwrap_or_else(|| crate::harness_error("C17: honest establish refused (see C04)"));
+    let ready = req
+        .complete(cs, &m.ccfg)
+        .ok()
+        .and_then(|i| i.activate(m.cfg.activate(&mut rng, vbs), &m.ccfg).ok())
+        .unwrap_or_else(|| crate::harness_error("C17: honest establish replies refused (see C04)"));
+    let amt = if amount >= 0 { za::PaymentAmount::pay_merchant(amount as u64) } else { za::PaymentAmount::pay_customer((-amount) as u64) }.unwrap();
+    let pctx = b"c17-extreme-pay".to_vec();
+    let (_st, sm) = match ready.start(&mut rng, amt, &za::Context::new(&pctx), &m.ccfg) {
+        Ok(x) => x,
+        Err((_, e)) => {
+            o.violate("admissible-payment-refused", "customer::Ready::start", format!("amount {} on ({}, {}) returned {:?}", amount, c0, m0, e));
+            return;
+        }
+    };
+    let nonce = crate::atoms::encode(&sm.nonce);
+    let proof = crate::atoms::encode(&sm.pay_proof);
+    o.events += 5;
+    let r = forge::present_pay(m, amount, &nonce, &pctx, &proof, seed, "c17/extreme/control");
+    if r.accepted.is_none() {
+        o.violate("honest-payment-refused", "merchant::Config::allow_payment", format!("amount {} on ({}, {})", amount, c0, m0));
+        return;
+    }
+    o.bump("probe.extreme_payment_accepted");
+    for a in wrong {
+        o.bump("fault.byzantine.wire-amount");
+        o.events += 1;
+        let r = forge::present_pay(m, a, &nonce, &pctx, &proof, seed, "c17/extreme/wrong");
+        if let Some(p) = r.panicked {
+            o.violate("merchant-panics-on-wire-amount", p.split('|').next().unwrap_or(""), format!("allow_payment panicked for the decodable amount {}", a));
+        } else if r.accepted.is_some() {
+            o.violate("payment-accepted-under-other-amount", "merchant::Config::allow_payment", format!("a proof made for amount {} on ({}, {}) was accepted for amount {}", amount, c0, m0, a));
+        } else {
+            o.bump("probe.wire_amount_refused");
+        }
+    }
+}
+
 const C17_WORLD: [&str; 14] = [
     "try-add-wrong",
     "amount-constructor-accepts-2^63",
@@ -284,6 +337,9 @@ impl Prop for C17 {
         for i in 0..(if tier == Tier::Quick { 8 } else { 400 }) {
             v.push(json!({"f": "wire-amount", "seed": mix(&[seed, 0xC17C, i])}));
         }
+        for i in 0..(if tier == Tier::Quick { 4 } else { 100 }) {
+            v.push(json!({"f": "wire-extreme", "seed": mix(&[seed, 0xC17E, i]) / 2 * 2 + (i % 2)}));
+        }
         CaseSet {
             enumerated: v,
             random: match tier {
@@ -319,6 +375,7 @@ impl Prop for C17 {
                 start_lattice(&mut o, seed, case["c"].as_u64().unwrap_or(0), case["m"].as_u64().unwrap_or(0), &amounts);
             }
             "wire-amount" => wire_amounts(&mut o, seed),
+            "wire-extreme" => wire_extreme(&mut o, seed),
             "history" => {
                 let plan = plan_of(case);
                 let _ = run_plan(&plan, &mut o);
@@ -363,6 +420,6 @@ impl Prop for C17 {
         ]
     }
     fn required_probes(&self, _tier: Tier) -> Vec<&'static str> {
-        vec!["probe.constructors_checked", "probe.lattice_start_ok", "probe.lattice_start_refused", "fault.byzantine.wire-amount", "probe.payment_completed", "probe.boundary_balance_reached"]
+        vec!["probe.extreme_payment_accepted", "probe.constructors_checked", "probe.lattice_start_ok", "probe.lattice_start_refused", "fault.byzantine.wire-amount", "probe.payment_completed", "probe.boundary_balance_reached"]
     }
 }
